@@ -328,7 +328,11 @@ class FnContract:
                     if len(cl) > 3 and cl[3]:
                         # instances of separately proved lemmas (Layer B) offered as hints for this clause
                         s2 = s2.clone()
-                        for h in cl[3]:
+                        for hi, h in enumerate(cl[3]):
+                            if isinstance(h, tuple) and h[0] == 'def':
+                                # a fact that follows from a definition: proved on the spot (with the definitions), then used
+                                eng.emit(s2, '%s/path%d/%s/%s/def-hint%d' % (fname, pi, c.name, label, hi), h[1], kind='hint', tags=tags)
+                                h = h[1]
                             s2.assume(h)
                     eng.emit(s2, '%s/path%d/%s/%s' % (fname, pi, c.name, label), cond, kind='clause', tags=tags, meta={'origin': origin})
                     # clauses are proved in order: an earlier clause (with its own obligation) may be used by later ones
